@@ -7,11 +7,11 @@ import concurrent.futures as cf
 from .. import assign_replay, pool, tlc
 from ..checklib import Check, MachineryError, overlap_kind
 
-SHAPES = ["seq", "flat", "nest", "dict", "call"]
+SHAPES = ["seq", "flat", "nest", "dict", "call", "pos"]
 # (TStride of the model-checking run, TStride / Stride / keep_every of the emission) per tier
 SIZES = {
-    "quick": {"seq": (16, 40, 4, 1), "flat": (1, 2, 3, 2), "nest": (4, 10, 3, 3), "dict": (16, 60, 3, 2), "call": (8, 10, 3, 2), "inner": (8, 12, 3, 4)},
-    "thorough": {"seq": (1, 4, 2, 1), "flat": (1, 1, 1, 1), "nest": (1, 2, 1, 1), "dict": (1, 8, 2, 1), "call": (1, 2, 1, 1), "inner": (1, 4, 2, 2)},
+    "quick": {"seq": (16, 40, 4, 1), "flat": (1, 2, 3, 2), "nest": (4, 10, 3, 3), "dict": (16, 60, 3, 2), "call": (8, 10, 3, 2), "pos": (1, 1, 1, 1), "inner": (8, 12, 3, 4)},
+    "thorough": {"seq": (1, 4, 2, 1), "flat": (1, 1, 1, 1), "nest": (1, 2, 1, 1), "dict": (1, 8, 2, 1), "call": (1, 2, 1, 1), "pos": (1, 1, 1, 1), "inner": (1, 4, 2, 2)},
 }
 INVS = {"C02": ["C02"], "C10": ["C10"], "C11": ["C11"], "C05": ["C05"], "C08": ["C08"], "C09": ["C09"],
         "C18": ["C02", "C10"]}
@@ -63,6 +63,7 @@ def sig_of(m, case):
     return {"clause": m["clause"], "A": m["A"], "term_kind": case["tm"]["t"], "value_kind": case["v"]["t"],
             "error": err, "overlap": overlap_kind(det), "nested": assign_replay.RA.has_tag(case["tm"], {"sn"}),
             "positional": bool(d.get("positional")) if "positional" in d else None,
+            "pos_class": bool(d.get("pos_class")) if "positional" in d else None,
             "exp": d.get("exp") if m["clause"] == "cats" else None, "got": d.get("got") if m["clause"] == "cats" else None}
 
 
